@@ -117,7 +117,7 @@ def run_chunk(spec):
     traces = {}
     nev = NEV[spec["tier"]]
     P0, P1 = _profile(), _profile(dup=True)
-    wd = Watchdog(res, 90.0)
+    wd = Watchdog(res, 400.0)
     base = spec["chunk"] * 100000
     only = spec.get("only_case")
     idxs = [only["idx"]] if only else [base + j for j in range(spec["n"])]
